@@ -365,6 +365,10 @@ func c02Run(c *Ctx, t *c02Tables, mem *fastMem, e *aluEnc, base z80.States, d ui
 				got := cpu.States
 				got.IR.Lo = exp.IR.Lo // R: C14
 				got.AF.Lo = got.AF.Lo&mask | exp.AF.Lo&^mask
+				if a == 0x7f && v == 0x01 && f == 0x01 && c.R.NSamples() < 10 && (e.Rep || e.DPos >= 0) {
+					c.R.Sample(map[string]interface{}{"encoding": e.Name, "bytes": HexBytes(bs), "A": "7F", "operand": "01", "F_in": "01",
+						"A_out": h8(cpu.States.AF.Hi), "F_out": h8(cpu.States.AF.Lo), "operand_out": h8(nv), "oracle_F": h8(nf), "f_mask": h8(mask)})
+				}
 				ok := got == exp && !cpu.HALT && mem.writes == wantWrites
 				if ok && memOp {
 					ok = mem.d[c02Mem] == nv && (wantWrites == 0 || mem.lastW == c02Mem)
@@ -518,8 +522,6 @@ func runC02(c *Ctx) {
 			nfull++
 		}
 	}
-	c.R.Sample(map[string]interface{}{"encoding": encs[0].Name, "bytes": HexBytes(encs[0].Bytes), "cube": "A 00..FF x B 00..FF x F 00..FF", "example": "A=7F B=01 F=00 -> A=80 F=94"})
-	c.R.Sample(map[string]interface{}{"encoding": encs[len(encs)-1].Name, "bytes": HexBytes(encs[len(encs)-1].Bytes), "operand": "(HL)=4000"})
 	c.R.Set("evaluations", evals)
 	c.R.Set("distinct_nontrivial", evals)
 	c.R.Set("encodings", int64(len(encs)))
